@@ -36,6 +36,7 @@ import (
 	"github.com/semihalev/sdns/config"
 	"github.com/semihalev/sdns/internal/dnsutil"
 	"github.com/semihalev/sdns/internal/mock"
+	"github.com/semihalev/sdns/internal/waitgroup"
 	"github.com/semihalev/sdns/middleware"
 	ednsmw "github.com/semihalev/sdns/middleware/edns"
 )
@@ -439,11 +440,18 @@ func vC13PipeHistory(r *rand.Rand) map[string]any {
 	// directed episode: fail, let the backoff end, recover, let the answer expire,
 	// fail again, and ask once more between one and two initial intervals later —
 	// the second failure must have started a new episode
-	episode := r.Intn(5) == 0
+	episode := r.Intn(3) == 0
 	var epKey vC13QKey
+	epRespScope := -1
 	if episode {
 		epKey = g.qkey()
 		epKey.qclass = dns.ClassINET
+		if r.Intn(3) != 0 {
+			// an ECS audience whose recovery carries a SCOPE that is not its SOURCE
+			// (no option, 0, shorter): the reset must still address the CLIENT's audience
+			epKey.scope = g.scopes[4+r.Intn(len(g.scopes)-4)]
+			epRespScope = r.Intn(3)
+		}
 		nsteps += 6
 	}
 	for i := 0; i < nsteps; i++ {
@@ -593,6 +601,9 @@ func vC13PipeHistory(r *rand.Rand) map[string]any {
 				// what the authority says about the answer's audience must not matter for
 				// whose failure state the recovery resets: that is the client's audience
 				d.respScope = r.Intn(6)
+				if script == 2 && epRespScope >= 0 {
+					d.respScope = epRespScope
+				}
 			}
 		default:
 			d.kind = 2
@@ -1019,6 +1030,110 @@ func vC13WireGateCase(t *testing.T, r *rand.Rand) map[string]any {
 	}
 }
 
+// An abandoned leader: the probe's downstream blocks; the waitgroup's generation
+// bound (15 s in production, 25 ms here — the only thing changed) passes; the
+// followers of that generation, and requests arriving later while the leader is
+// still registered, must be shed — not re-elected, not sent downstream — and
+// only after the leader has returned may another probe start.  No verdict
+// depends on timing: every wait is on a channel or on the requests' own return.
+func vC13TimeoutCase(r *rand.Rand) map[string]any {
+	c := New(&config.Config{CacheSize: 1024})
+	defer c.Stop()
+	c.wg = waitgroup.New(25 * time.Millisecond)
+	clock := &vC13Clock{now: vC13Base}
+	c.failure.now = clock.Now
+	g := newVC13Gen(r)
+	zone := g.names[2]
+	c.store.RecordZoneFailure(dns.Question{Name: "seed." + zone.pres(), Qtype: dns.TypeA, Qclass: dns.ClassINET}, zone.pres())
+	clock.now = vC13Base.Add(c.failure.initialTTL + 1)
+	leaderLocal := r.Intn(2) == 0
+	n := 2 + r.Intn(6)
+	late := r.Intn(4)
+	var calls atomic.Int32
+	release := make(chan struct{})
+	entered := make(chan struct{}, 8)
+	stub := middleware.HandlerFunc(func(hctx context.Context, ch *middleware.Chain) {
+		call := calls.Add(1)
+		rq := ch.Request.Msg()
+		resp := new(dns.Msg)
+		resp.SetRcode(rq, dns.RcodeServerFailure)
+		if call == 1 {
+			entered <- struct{}{}
+			<-release // the abandoned probe
+		}
+		if leaderLocal && call == 1 {
+			mctx, _ := middleware.EnsureResolutionAttemptGuard(hctx)
+			middleware.MarkRequestLocalFailureResponse(mctx, resp, middleware.ErrResolutionAttemptLimit)
+		} else {
+			c.store.RecordZoneFailure(rq.Question[0], zone.pres())
+		}
+		_ = ch.Writer.WriteMsg(resp)
+		ch.Cancel()
+	})
+	type result struct{ rcode, ede int }
+	ask := func(i int, out chan<- result) {
+		nm := append(vC13Name{[]byte(fmt.Sprintf("t%d", i))}, zone...)
+		req := vC13QKey{name: nm, qtype: dns.TypeA, qclass: dns.ClassINET}.req()
+		req.SetEdns0(1232, false)
+		writer := mock.NewWriter("udp", "192.0.2.1:53000")
+		chain := middleware.NewChain([]middleware.Handler{c, stub})
+		chain.Reset(writer, req)
+		chain.Next(context.Background())
+		res := result{999, -1}
+		if msg := writer.Msg(); msg != nil {
+			res.rcode = msg.Rcode
+			if e := dnsutil.GetEDE(msg); e != nil {
+				res.ede = int(e.InfoCode)
+			}
+		}
+		out <- res
+	}
+	isShed := func(x result) bool {
+		return x.rcode == dns.RcodeServerFailure && x.ede == int(dns.ExtendedErrorCodeOther)
+	}
+	first := make(chan result, n)
+	for i := 0; i < n; i++ {
+		go ask(i, first)
+	}
+	<-entered // the leader is in its downstream call
+	shedFirst := 0
+	for i := 0; i < n-1; i++ { // every follower comes back on its own once the generation bound has passed
+		if isShed(<-first) {
+			shedFirst++
+		}
+	}
+	shedLate := 0
+	lateCh := make(chan result, late+1)
+	for i := 0; i < late; i++ {
+		go ask(n+i, lateCh)
+		if isShed(<-lateCh) {
+			shedLate++
+		}
+	}
+	callsBlocked := int(calls.Load())
+	close(release)
+	<-first // the leader's own answer
+	go ask(n+late, lateCh)
+	lastRes := <-lateCh
+	last := 3
+	switch {
+	case lastRes.rcode == dns.RcodeServerFailure && lastRes.ede == int(dns.ExtendedErrorCodeCachedError):
+		last = 0
+	case isShed(lastRes):
+		last = 2
+	case int(calls.Load()) > callsBlocked:
+		last = 1
+	}
+	return map[string]any{
+		"k": map[bool]string{true: "abandoned-leader-local", false: "abandoned-leader-shared"}[leaderLocal],
+		"coq": fmt.Sprintf("CaseTimeout %d %d %v %d %d %d %d %d", n, late, leaderLocal, callsBlocked, shedFirst, shedLate, calls.Load(), last),
+		"nontrivial": true,
+		"desc": map[string]any{"zone": zone.pres(), "requests": n, "late_requests": late, "leader_fails_request_locally": leaderLocal,
+			"probes_sent_while_leader_blocked": callsBlocked, "followers_shed": shedFirst, "late_requests_shed": shedLate,
+			"probes_sent_in_all": calls.Load(), "last_request": []string{"served from the failure cache", "became the next probe", "shed", "other"}[last]},
+	}
+}
+
 // ---------------------------------------------------------------- corpus
 // Fixed recovery episodes (VERIF_CORPUS/pipe.json), replayed first on every
 // run: question fails -> backoff ends -> the probe brings a useful answer (with
@@ -1171,5 +1286,8 @@ func TestVerifC13Pipe(t *testing.T) {
 	}
 	for i := 0; i < n/5+10; i++ {
 		tr.emit(vC13WireGateCase(t, r))
+	}
+	for i := 0; i < n/25+6; i++ {
+		tr.emit(vC13TimeoutCase(r))
 	}
 }
